@@ -225,7 +225,7 @@ def run(rng, res, tier, shard, nshards):
     for _ in range(RANDOM[tier] // nshards):
         if not budget.more():
             break
-        size = rng.choice([4, 4, 5, 6, 8, 10, 15, 25, 40])
+        size = rng.choice([4, 4, 5, 6, 8, 10, 15, 25, 40] + ([90, 150] if rng.random() < 0.1 else []))
         desc = agraph.gen_desc(rng, size)
         orders = [list(range(size))]
         for _k in range(5):
